@@ -225,7 +225,9 @@ def run_hc(case):
     total = None
     addrs = None
     site = None
-    signal.alarm(opts.get("timeout", 60))
+    # a live-range set of at most 40 ranges needs milliseconds with <= 700 iterations; a search that spins (seen with seeded changes of
+    # the termination test) is cut after 15 s instead of 60 s so that a broken tree still gets its verdict within the time limit
+    signal.alarm(opts.get("timeout", 60 if len(ranges) > 40 else 15))
     try:
         if opts.get("via_allocate"):
             class Arch:
@@ -415,6 +417,62 @@ def gen_cases(ck):
             tl = [(i, 0, 0, False, i) for i in range(len(ranges))]
             cases.append(("l", gran, lrs, tl, {"tag": tag, "via_allocate": rng.random() < 0.15}))
 
+    fam_no = [0]
+
+    def add_family(ranges, tag, hc_opts=None):
+        """history: the three allocators on `ranges`, then - in the same worker process, right after (main() keeps a family in
+        one chunk) - on a sibling set that differs in ONE field of ONE live range, with the very same options; and HillClimb once
+        more on the base set with ONE option changed.  The Lean model is history-free."""
+        n0 = len(cases)
+        add_all_three(ranges, tag, hc_opts)
+        base = cases[n0:]
+        fam_no[0] += 1
+        i, f = rng.randrange(len(ranges)), rng.choice(["start", "end", "size", "align"])
+        s_, e_, z_, a_ = ranges[i][:4]
+        if f == "start":
+            s_ = s_ - 1 if s_ > 0 else min(s_ + 1, e_)
+        elif f == "end":
+            e_ = e_ + 1
+        elif f == "size":
+            z_ = z_ + rng.choice([16, 32, 1])
+        else:
+            a_ = rng.choice([x for x in ALIGNS if x != a_])
+        if (s_, e_, z_, a_) == tuple(ranges[i][:4]):
+            return
+        sibs = []
+        for c in base:
+            o = dict(c[-1], fam=fam_no[0], sibling_field=f)
+            c[-1]["fam"] = fam_no[0]
+            if c[0] == "g":
+                rs = list(c[1])
+                rs[i] = (s_, e_, z_, a_) + tuple(rs[i][4:])
+                sibs.append(("g", rs, o))
+            elif c[0] == "h":
+                if i >= len(c[1]):
+                    continue
+                rs = list(c[1])
+                rs[i] = (s_, e_, z_, a_)
+                sibs.append(("h", rs, o))
+                # one OPTION changed, same live ranges
+                o2 = dict(c[-1], sibling_field="option")
+                which = rng.choice(["max_iter", "mem_limit", "own_seed"])
+                if which == "max_iter":
+                    o2["max_iter"] = rng.choice([x for x in (0, 1, 50, 600) if x != c[-1].get("max_iter")])
+                elif which == "mem_limit":
+                    o2["mem_limit"] = c[-1].get("mem_limit", 1 << 40) + 64
+                    if o2.get("max_iter") is None:
+                        o2["max_iter"] = 600
+                else:
+                    o2["own_seed"] = rng.getrandbits(30)
+                sibs.append(("h", list(c[1]), o2))
+            elif c[0] == "l" and f != "align":
+                lrs = list(c[2])
+                lrs[i] = (s_, e_, z_, lrs[i][3])
+                sibs.append(("l", c[1], lrs, c[3], o))
+            elif c[0] == "l":
+                sibs.append(("l", rng.choice([g_ for g_ in (16, 32, 64, 128) if g_ != c[1]]), c[2], c[3], o))
+        cases.extend(sibs)
+
     # --- corpus: known crashing sets, replayed with the allocator's own seed(1) generator -----------
     for ranges in HC_CRASH_CORPUS:
         cases.append(("h", ranges, {"tag": "corpus", "max_iter": None, "mem_limit": 1 << 32}))
@@ -435,10 +493,10 @@ def gen_cases(ck):
         t = list(t)
         rng.shuffle(t)
         add_all_three(t, "exh3")
-    nrand = {3: 1500, 4: 2000, 5: 2000} if not thorough else {3: 80000, 4: 90000, 5: 90000}
+    nrand = {3: 800, 4: 1050, 5: 1050} if not thorough else {3: 42000, 4: 47000, 5: 47000}     # families: base + one-field siblings
     for n, cnt in nrand.items():
         for _ in range(cnt):
-            add_all_three([rng.choice(FULL) for _ in range(n)], "small%d" % n)
+            add_family([rng.choice(FULL) for _ in range(n)], "small%d" % n)
     # --- random large --------------------------------------------------------------------------
     nlarge = 24 if not thorough else 320
     for i in range(nlarge):
@@ -555,12 +613,33 @@ def main():
     ck.count("cases", len(cases))
     # run the real allocators in worker processes (fork: the patched modules are inherited)
     jobs = min(16, os.cpu_count() or 4)
-    order = sorted(range(len(cases)), key=lambda i: -(len(cases[i][1]) if cases[i][0] in ("g", "h") else 1))
-    big = [i for i in order if cases[i][0] == "h" and len(cases[i][1]) > 40]
-    rest = [i for i in order if i not in set(big)]
-    chunks = [[i] for i in big]
+    def fam_of(i):
+        o = cases[i][-1]
+        return o.get("fam") if isinstance(o, dict) else None
+
+    # units: a family (base cases, then their siblings, in generation order) is never split over worker processes
+    units, by_fam = [], {}
+    for i in range(len(cases)):
+        f = fam_of(i)
+        if f is None:
+            units.append([i])
+        elif f in by_fam:
+            by_fam[f].append(i)
+        else:
+            by_fam[f] = [i]
+            units.append(by_fam[f])
+    ck.count("families", len(by_fam))
+    ck.count("sibling_cases", sum(1 for i in range(len(cases)) if isinstance(cases[i][-1], dict) and cases[i][-1].get("sibling_field")))
+
+    def usize(u):
+        return max((len(cases[i][1]) if cases[i][0] in ("g", "h") else 1) for i in u)
+    order = sorted(range(len(units)), key=lambda k: -usize(units[k]))
+    big = [k for k in order if any(cases[i][0] == "h" and len(cases[i][1]) > 40 for i in units[k])]
+    bigset = set(big)
+    rest = [k for k in order if k not in bigset]
+    chunks = [list(units[k]) for k in big]
     step = max(1, len(rest) // (jobs * 24))
-    chunks += [rest[i:i + step] for i in range(0, len(rest), step)]
+    chunks += [[i for k in rest[j:j + step] for i in units[k]] for j in range(0, len(rest), step)]
     ctx = multiprocessing.get_context("fork")
     with ctx.Pool(jobs) as pool:
         res = pool.map(run_chunk, [[cases[i] for i in ch] for ch in chunks], chunksize=1)
